@@ -245,6 +245,22 @@ Qed.
 End Cfg.
 
 (** * Thunks *)
+(** the DSL without a static [ProofExp.instantiate] that carries plugs (D10); the static instantiate
+    with an EMPTY delta is harmless since the fix of D11 *)
+Fixpoint no_plug_inst (t:pterm) : bool :=
+  match t with
+  | PMP a b => no_plug_inst a && no_plug_inst b
+  | PGen a _ | PDynInst a _ => no_plug_inst a
+  | PInst a d => no_plug_inst a && is_nil d
+  | _ => true
+  end.
+
+Lemma dynamic_no_plug_inst t : dynamic t = true -> no_plug_inst t = true.
+Proof.
+  induction t as [| | | |a IHa b IHb|a IHa x|a IHa d|a IHa d|p]; simpl; intros H; auto; try discriminate.
+  apply andb_true_iff in H as [H1 H2]. rewrite IHa, IHb; auto.
+Qed.
+
 (** the term's [load_axiom]s are resolvable in memory [mem] *)
 Fixpoint loads_ok (t:pterm) (mem:list term) : bool :=
   match t with
@@ -496,22 +512,22 @@ Proof. induction a; simpl; [destruct b; reflexivity | f_equal; assumption]. Qed.
 Lemma skipn_app_exact {A} (a b:list A) : skipn (length a) (a ++ b) = b.
 Proof. induction a; simpl; [reflexivity | assumption]. Qed.
 
+Lemma is_nil_true' {A} (l:list A) : is_nil l = true -> l = [].
+Proof. destruct l; [reflexivity | discriminate]. Qed.
+
 Lemma st_inst_dynamic c d stk mem cl ph : d <> [] ->
   st_step (CInst c d) (mksst (TProved c :: rev (map TPat (dvals d)) ++ stk) mem cl ph)
   = Some (mksst (TProved (py_inst d c) :: stk) mem cl ph).
 Proof.
-  intros Hd. unfold st_step. cbn [s_stack]. cbv zeta.
+  intros Hd. unfold st_step, st_inst. cbn [s_stack].
   assert (L : length d = length (rev (map TPat (dvals d)))) by (rewrite rev_length, map_length; unfold dvals; rewrite map_length; reflexivity).
-  assert (E : (match length d with
-               | O => (rev (map TPat (dvals d)) ++ stk, [])
-               | S _ => (firstn (length d) (rev (map TPat (dvals d)) ++ stk), skipn (length d) (rev (map TPat (dvals d)) ++ stk))
-               end) = (rev (map TPat (dvals d)), stk)).
-  { destruct (length d) eqn:EL; [destruct d; [contradiction | discriminate]|].
+  assert (E : inst_split false (length d) (rev (map TPat (dvals d)) ++ stk) = (rev (map TPat (dvals d)), stk)).
+  { unfold inst_split. destruct (length d) eqn:EL; [destruct d; [contradiction | discriminate]|].
     rewrite L, firstn_app_exact, skipn_app_exact. reflexivity. }
   rewrite E. rewrite rev_involutive, term_eqb_refl, terms_eqb_refl. reflexivity.
 Qed.
 
-Lemma tcalls_st t : forall s cs c m', dynamic t = true -> mem_shape_ok (s_mem s) -> loads_ok t (s_mem s) = true ->
+Lemma tcalls_st t : forall s cs c m', no_plug_inst t = true -> mem_shape_ok (s_mem s) -> loads_ok t (s_mem s) = true ->
   tcalls' t (s_mem s) = Some (cs, c, m') ->
   st_run cs s = Some (mksst (TProved c :: s_stack s) m' (s_claims s) (s_phase s)).
 Proof.
@@ -545,7 +561,12 @@ Proof.
       rewrite (IHa (mksst (rev (map TPat (dvals (kp :: d))) ++ s_stack s) (s_mem s ++ x1) (s_claims s) (s_phase s))
                  _ _ _ Hd M1 (loads_ok_app _ _ _ Hl) E1).
       rewrite st_run_one. cbn [s_stack s_mem s_claims s_phase]. apply st_inst_dynamic. discriminate.
-  - discriminate.
+  - (* static instantiate with an empty delta *)
+    apply andb_true_iff in Hd as [Hd Hn]. apply is_nil_true' in Hn. subst d.
+    destruct (tcalls' a (s_mem s)) as [[[ca pa] m1]|] eqn:E1; [|discriminate]. inversion HB; subst; clear HB.
+    destruct instopt; simpl.
+    + rewrite app_nil_r. eapply IHa; eassumption.
+    + rewrite st_run_app, (IHa s _ _ _ Hd Hm Hl E1). simpl. unfold st_inst. simpl. rewrite term_eqb_refl. reflexivity.
   - inversion HB; subst. simpl. rewrite Hl. destruct s; reflexivity.
 Qed.
 
@@ -579,7 +600,7 @@ Definition mem_after (c:call) (mem:list term) : list term :=
 
 Lemma st_step_mem c s s' : st_step c s = Some s' -> s_mem s' = mem_after c (s_mem s).
 Proof.
-  destruct c; simpl; intros H;
+  destruct c; simpl; unfold st_inst; intros H;
     repeat match type of H with
     | Some _ = Some _ => inversion H; subst; clear H
     | option_map _ ?x = Some _ => destruct x eqn:?; simpl in H; [|discriminate]
@@ -650,7 +671,7 @@ Definition out_fits (b:base) (ls:list layer) (axs:list pat) (t:pterm) (tbl:symta
   end.
 
 Theorem interp_agree_eq b ls axs t tbl s :
-  dynamic t = true -> mem_shape_ok (s_mem s) -> loads_ok t (s_mem s) = true ->
+  no_plug_inst t = true -> mem_shape_ok (s_mem s) -> loads_ok t (s_mem s) = true ->
   run b ls axs t tbl s = if out_fits b ls axs t tbl s then run_basic axs t else None.
 Proof.
   intros Hd Hm Hl. rewrite run_basic_bconc. unfold run, out_fits, stack_calls.
@@ -673,7 +694,7 @@ Proof.
 Qed.
 
 Theorem interp_agree b ls axs t tbl s c :
-  dynamic t = true -> mem_shape_ok (s_mem s) -> loads_ok t (s_mem s) = true ->
+  no_plug_inst t = true -> mem_shape_ok (s_mem s) -> loads_ok t (s_mem s) = true ->
   (run b ls axs t tbl s = Some c <-> run_basic axs t = Some c /\ out_fits b ls axs t tbl s = true).
 Proof.
   intros Hd Hm Hl. rewrite (interp_agree_eq b ls axs t tbl s Hd Hm Hl).
@@ -719,7 +740,7 @@ Proof. intros H1 H2. rewrite run_basic_bconc, (bconc_static axs t H1). exact H2.
 
 (** transparency of the two transformers on top of any stack (same verdict, same conclusion) *)
 Corollary memo_transparent b ms ls axs t tbl s :
-  dynamic t = true -> mem_shape_ok (s_mem s) -> loads_ok t (s_mem s) = true ->
+  no_plug_inst t = true -> mem_shape_ok (s_mem s) -> loads_ok t (s_mem s) = true ->
   out_fits b (LMemo ms :: ls) axs t tbl s = true -> out_fits b ls axs t tbl s = true ->
   run b (LMemo ms :: ls) axs t tbl s = run b ls axs t tbl s.
 Proof.
@@ -727,7 +748,7 @@ Proof.
 Qed.
 
 Corollary instopt_transparent b ls axs t tbl s :
-  dynamic t = true -> mem_shape_ok (s_mem s) -> loads_ok t (s_mem s) = true ->
+  no_plug_inst t = true -> mem_shape_ok (s_mem s) -> loads_ok t (s_mem s) = true ->
   out_fits b (LInstOpt :: ls) axs t tbl s = true -> out_fits b ls axs t tbl s = true ->
   run b (LInstOpt :: ls) axs t tbl s = run b ls axs t tbl s.
 Proof.
